@@ -531,6 +531,14 @@ fn corpus(emit: &mut dyn FnMut(String))
 	{
 		emit(format!("T {}", hex_bytes(c)));
 	}
+	// audit corpus: error-kind precedence when the text is cut by invalid UTF-8 (a dangling escape is BadString, an
+	// unclosed \u{ is BadUnicode), quote as character, lone angle brackets, comment openers/closers that share a byte
+	for c in [&b"\"\\\xff"[..], b"\"\\n\xff", b"\"\\u{1234567\xff", b"\"\\u{12345678abc\xff", b"\"\\u{\xff", b"'\\\xff", b"'\xf0\x9f\x98\x80\xff",
+		b"'''", b"'\\''", b"'\t'", b"<", b">", b"<>", b"a<", b"a>>>", b"<<<", b"/*/", b"/*/*/", b"/*/**/*/", b"/**/*/", b"/*//*/", b"*/",
+		b"0X1F", b"0B1", b"1_000", b"09", b"0b102", b"0o78", b"abc \xff", b"// x\n\xff", b"a\r\rb", b"\x0c", b"\"\\u{000041}\"", b"\"\\u{0000041}\""]
+	{
+		emit(format!("T {}", hex_bytes(c)));
+	}
 }
 
 fn main()
